@@ -747,7 +747,9 @@ func runDrain(e *env) Obs {
 			defer func() { consDone <- struct{}{} }()
 			drained := 0
 			for {
-				jit.pause()
+				if drained == 0 {
+					jit.pause() // no perturbation while only emptying the channel after the cut
+				}
 				a, ok := e.p.Acquire()
 				if !ok {
 					ended.Add(1)
@@ -767,6 +769,7 @@ func runDrain(e *env) Obs {
 					}
 				} else {
 					drained++
+					events.Add(1) // emptying the channel is progress for the watchdog
 					if drained > drainMax {
 						return // never ends: reported as not closed
 					}
@@ -907,15 +910,25 @@ func runStall(e *env) Obs {
 			}
 		}()
 	}
-	// consumers finish: they got their Cap ammo, or saw the end of ammo
+	// consumers finish: they got their Cap ammo, or saw the end of ammo (blocked = no Acquire completes for two ticks)
 	consBlocked := false
-	deadline := time.After(8 * tick)
+	tk := time.NewTicker(tick)
+	defer tk.Stop()
+	lastT, still := tickets.Load(), 0
 	for left := cons; left > 0 && !consBlocked; {
 		select {
 		case <-consDone:
 			left--
-		case <-deadline:
-			consBlocked = true
+			still = 0
+		case <-tk.C:
+			if t := tickets.Load(); t == lastT {
+				still++
+			} else {
+				lastT, still = t, 0
+			}
+			if still >= 3 {
+				consBlocked = true
+			}
 		}
 	}
 	var runErr error
@@ -923,7 +936,7 @@ func runStall(e *env) Obs {
 	if !consBlocked {
 		wait := 20 * time.Millisecond
 		if selfEnding(c) {
-			wait = 2 * tick
+			wait = 4 * tick
 		}
 		select {
 		case runErr = <-runDone:
@@ -937,7 +950,7 @@ func runStall(e *env) Obs {
 		select {
 		case runErr = <-runDone:
 			runReturned = true
-		case <-time.After(2 * tick):
+		case <-time.After(4 * tick):
 		}
 	}
 	obs.Ret = runReturned
@@ -977,7 +990,7 @@ func runStall(e *env) Obs {
 			if r.closed {
 				obs.End = "closed"
 			}
-		case <-time.After(2 * tick):
+		case <-time.After(8 * tick):
 		}
 	}
 	e.io.killed.Store(true)
